@@ -71,7 +71,7 @@ func Cleanup() {
 var hiddenHeaders = []string{"t: ", "trc: ", "trace: ", "d: ", "dbg: ", "debug: "}
 var severeHeaders = []string{"w: ", "wrn: ", "warn: ", "warning: ", "e: ", "err: ", "error: ", "a: ", "alr: ", "alert: ", "panic: "}
 
-var complaintRe = regexp.MustCompile(`(?i)error|fail|invalid|unsupported|unresolved|not found|requires|must|cannot|can't|out of range|no handler|warn|unknown|not implemented|unexpected|missing|not supported|could not|mismatch`)
+var complaintRe = regexp.MustCompile(`(?i)error|fail|invalid|unsupported|unresolved|not found|requires (exactly|at least|a |an |one|[0-9])|must (be|have|not)|cannot|can't|out of range|no handler|warn|unknown|not implemented|unexpected|missing|not supported|could not|mismatch`)
 
 // IsComplaint: a visible line at level >= warning, or one whose wording a user
 // would read as a complaint. Deliberately generous: it can only shrink the
@@ -186,22 +186,21 @@ func firstFrames(st []byte) string {
 	return strings.Join(keep, " | ")
 }
 
-// ExtraDiags returns the complaint lines of r not accounted for by the
-// baseline run (multiset difference).
+// ExtraDiags returns the complaint lines of r that the baseline run did not
+// print at all. (Set difference, not multiset: gosk re-runs pass 1 when it
+// widens branches, which repeats every baseline line.)
 func ExtraDiags(r, baseline *Result) []string {
-	cnt := map[string]int{}
+	seen := map[string]bool{}
 	if baseline != nil {
 		for _, d := range baseline.Diags {
-			cnt[d]++
+			seen[d] = true
 		}
 	}
 	var extra []string
 	for _, d := range r.Diags {
-		if cnt[d] > 0 {
-			cnt[d]--
-			continue
+		if !seen[d] {
+			extra = append(extra, d)
 		}
-		extra = append(extra, d)
 	}
 	return extra
 }
@@ -236,4 +235,30 @@ func SortedKeys[V any](m map[string]V) []string {
 	}
 	sort.Strings(ks)
 	return ks
+}
+
+var (
+	reQuoted = regexp.MustCompile(`'[^']*'|"[^"]*"`)
+	reNum    = regexp.MustCompile(`0x[0-9a-fA-F]+|-?[0-9]+`)
+)
+
+// DiagClass reduces the first complaint line a run printed beyond its
+// baseline to a short class (names and numbers removed), for statistics.
+func DiagClass(r, baseline *Result) string {
+	if r.ParseErr != "" {
+		return "parse error"
+	}
+	if r.Panic != "" {
+		return "panic"
+	}
+	ex := ExtraDiags(r, baseline)
+	if len(ex) == 0 {
+		return "none"
+	}
+	s := reQuoted.ReplaceAllString(ex[0], "_")
+	s = reNum.ReplaceAllString(s, "N")
+	if len(s) > 70 {
+		s = s[:70]
+	}
+	return s
 }
